@@ -97,9 +97,126 @@ def extra_checks(tier, seed):
         want = {CR.mangle(b): i for i, b in enumerate(cls.bits) if b}
         if cls._bit_properties != want or len(cls.bits) > 8 or len(want) != len([b for b in cls.bits if b]):
             bad.append(cls.__name__)
-    return [{"name": "C06/registry/bit-dictionaries-match-bit-lists", "status": "failed" if bad else "discharged",
-             "cases": n, "kind": "exhaustive", "seconds": time.time() - t0, "detail": "classes: %s" % bad,
-             "witness": {"classes": bad}, "replay": {"classes": bad}}]
+    out = [{"name": "C06/registry/bit-dictionaries-match-bit-lists", "status": "failed" if bad else "discharged",
+            "cases": n, "kind": "exhaustive", "seconds": time.time() - t0, "detail": "classes: %s" % bad,
+            "witness": {"classes": bad}, "replay": {"classes": bad}}]
+    out.append(history_check())
+    return out
+
+
+# ----------------------------------------------------------------------------- bounded stand-in: history independence
+# The proof units look at one response object at a time, from a state in which nothing was evaluated before; a response
+# that keeps state outside itself (a cache on a class) fails their frame clause without an input to show.  This native
+# enumeration then looks for an actual witness: every observation of every class x every bus outcome is made in four
+# orders (each class alone in a forked process, outcomes ascending / descending; all classes in one process, in registry
+# order / reversed) and must come out the same.
+def _observe(cls, raw):
+    out = []
+    try:
+        r = cls(raw)
+    except Exception as e:      # noqa: BLE001
+        return ("ctor", type(e).__name__)
+    for attr in ("raw_value", "value", "status", "error"):
+        if attr == "status" and not hasattr(cls, "status"):
+            continue
+        if attr == "error" and not isinstance(getattr(cls, "error", None), property):
+            continue
+        try:
+            v = getattr(r, attr)
+            out.append((attr, repr(v) if not isinstance(v, F.Frame) else ("frame", len(v), v.as_integer, v.error)))
+        except Exception as e:      # noqa: BLE001
+            out.append((attr, "raised " + type(e).__name__))
+    try:
+        out.append(("str", str(r)))
+    except Exception as e:      # noqa: BLE001
+        out.append(("str", "raised " + type(e).__name__))
+    for b in getattr(cls, "_bit_properties", {}) or {}:
+        try:
+            out.append((b, repr(getattr(r, b))))
+        except Exception as e:      # noqa: BLE001
+            out.append((b, "raised " + type(e).__name__))
+    return tuple(out)
+
+
+def _outcomes():
+    yield ("none", 0)
+    for b in range(256):
+        yield ("clean", b)
+    for b in range(256):
+        yield ("garbled", b)
+
+
+def _mk_raw(o):
+    if o[0] == "none":
+        return None
+    return F.BackwardFrame(o[1]) if o[0] == "clean" else F.BackwardFrameError(o[1])
+
+
+def _alone(job):
+    idx, reverse = job
+    cls = response_classes()[idx]
+    outs = list(_outcomes())
+    if reverse:
+        outs.reverse()
+    return idx, reverse, {o: _observe(cls, _mk_raw(o)) for o in outs}
+
+
+def _together(reverse):
+    classes = list(enumerate(response_classes()))
+    if reverse:
+        classes.reverse()
+    res = {}
+    for o in _outcomes():
+        for idx, cls in classes:
+            res[(idx, o)] = _observe(cls, _mk_raw(o))
+    return reverse, res
+
+
+def history_check():
+    import multiprocessing as mp
+    t0 = time.time()
+    classes = response_classes()
+    ctx = mp.get_context("fork")
+    with ctx.Pool(16, maxtasksperchild=1) as pool:
+        alone = pool.map(_alone, [(i, rev) for i in range(len(classes)) for rev in (False, True)], chunksize=1)
+        together = pool.map(_together, [False, True], chunksize=1)
+    ref = {}
+    diffs = []
+    n = 0
+    for idx, rev, obs in alone:
+        for o, v in obs.items():
+            n += 1
+            k = (idx, o)
+            if k not in ref:
+                ref[k] = (v, "alone, outcomes %s" % ("descending" if rev else "ascending"))
+            elif ref[k][0] != v:
+                diffs.append((k, ref[k], (v, "alone, outcomes %s" % ("descending" if rev else "ascending"))))
+    for rev, res in together:
+        for k, v in res.items():
+            n += 1
+            if ref[k][0] != v:
+                diffs.append((k, ref[k], (v, "after the other classes (%s order)" % ("reversed" if rev else "registry"))))
+    name = "C06/bounded/observations-do-not-depend-on-what-was-evaluated-before"
+    if not diffs:
+        return {"name": name, "status": "discharged", "cases": n, "kind": "bounded-native", "seconds": time.time() - t0,
+                "detail": "%d response classes x 513 bus outcomes, every observation (raw_value, value, status, error, named bits, "
+                          "str) in four evaluation orders" % len(classes)}
+    diffs.sort(key=repr)
+    (idx, o), a, b = diffs[0]
+    first = next((x for x, y in zip(a[0], b[0]) if x != y), None) if isinstance(a[0], tuple) and isinstance(b[0], tuple) else None
+    return {"name": name, "status": "failed", "cases": n, "kind": "bounded-native", "seconds": time.time() - t0,
+            "detail": "%s with outcome %s: %r when evaluated %s, but %r when evaluated %s (%d such cases)"
+                      % (classes[idx].__name__, o, first, a[1], next((y for x, y in zip(a[0], b[0]) if x != y), None), b[1], len(diffs)),
+            "witness": {"class": classes[idx].__name__, "outcome": list(o), "orders": [a[1], b[1]]},
+            "replay": {"how": "the response class is instantiated natively on the outcome, in the two evaluation orders named",
+                       "class": classes[idx].__module__ + "." + classes[idx].__name__, "outcome": list(o),
+                       "first": [a[1], repr(a[0])[:400]], "second": [b[1], repr(b[0])[:400]], "cases": len(diffs)}}
+
+
+def adjudicate(failed, undecided, obligations, extra):
+    from pyvc.engine import adjudicate_stores
+    adjudicate_stores("C06", failed, undecided, obligations, extra,
+                      "the bounded search over evaluation orders found no observation that depends on an earlier one")
 
 
 # checks whose proof units establish the callee contracts applied here (re-verified by this check, see main.dependency_units)
@@ -109,7 +226,9 @@ META = {
     "level": "proof",
     "bounds": {"response classes": "all classes reachable from a live command class (34), taken from the registry",
                "bus outcomes": "None, BackwardFrame(b), BackwardFrameError(b) with b symbolic in 0..255",
-               "constructor arguments": "None / backward frames / int / forward and plain frames / None,str,float,bytes,tuple,list,object"},
+               "constructor arguments": "None / backward frames / int / forward and plain frames / None,str,float,bytes,tuple,list,object",
+               "history (BOUNDED stand-in)": "every observation of every class x 513 outcomes natively in four evaluation orders "
+               "(alone ascending / descending, all classes together in registry / reversed order)"},
     "assumptions": [
         "Frame operations are used through their contracts (C05)",
         "text content is not specified: str() is proved to return a str and never to raise MissingResponse/ResponseError "
